@@ -496,6 +496,9 @@ func (in *Interp) freshRandBytes(n int) []*Term {
 	}
 	in.misc["randSeq"] = k + 1
 	in.symVars = append(in.symVars, out...)
+	if in.fieldOn() && n > 0 {
+		in.assume(Neq(out[0], BVConst64(0, 8)))
+	}
 	return out
 }
 
@@ -685,10 +688,16 @@ func (in *Interp) hashApply(kind string, key, stream []*Term) *hashApp {
 			h.out = append(h.out, v)
 		}
 		in.stubsSeen["hash-model:"+kind] = true
+		if in.fieldOn() {
+			// genericity: a digest does not start with a zero byte (keeps all-zero scans from forking)
+			in.assume(Neq(h.out[0], BVConst64(0, 8)))
+			in.stubsSeen["genericity: first byte of every symbolic digest / random string is non-zero"] = true
+		}
 	}
 	// axioms against earlier applications of the same kind (at least one side symbolic)
 	for _, o := range in.hashes {
-		if o.kind != kind || (o.conc != nil && h.conc != nil) {
+		if o.kind != kind || (o.conc != nil && h.conc != nil) || in.fieldOn() {
+			// field mode: hash outputs on syntactically different streams are independent indeterminates
 			continue
 		}
 		se := And(streamEq(o.key, h.key), streamEq(o.stream, h.stream))
